@@ -36,7 +36,7 @@ type object struct {
 
 type mcase struct {
 	obj   int
-	class string // trunc | byte | varuint | u64
+	class string // trunc | byte | varuint | u64 | varuint+cut | u64+cut
 	off   int
 	what  string
 	build func() []byte
@@ -155,6 +155,9 @@ func forEachCase(objs []object, f func(i int, c *mcase)) int {
 				for _, bv := range bigValues(L - off - w) {
 					bv := bv
 					emit(&mcase{obj: oi, class: "varuint", off: off, what: fmt.Sprintf("var-uint@%d=%s", off, bv.name), build: func() []byte { return splice(b, off, w, varuint(bv.v)) }})
+					if bv.name != "remaining+1" { // the same blown-up prefix with nothing behind it (also the shortest reproduction)
+						emit(&mcase{obj: oi, class: "varuint+cut", off: off, what: fmt.Sprintf("var-uint@%d=%s, cut behind it", off, bv.name), build: func() []byte { return splice(b[:off+w], off, w, varuint(bv.v)) }})
+					}
 				}
 			}
 			if off+8 <= L {
@@ -164,6 +167,9 @@ func forEachCase(objs []object, f func(i int, c *mcase)) int {
 					}
 					bv := bv
 					emit(&mcase{obj: oi, class: "u64", off: off, what: fmt.Sprintf("u64@%d=%s", off, bv.name), build: func() []byte { return splice(b, off, 8, u64le(bv.v)) }})
+					if bv.name != "remaining+1" {
+						emit(&mcase{obj: oi, class: "u64+cut", off: off, what: fmt.Sprintf("u64@%d=%s, cut behind it", off, bv.name), build: func() []byte { return splice(b[:off+8], off, 8, u64le(bv.v)) }})
+					}
 				}
 			}
 		}
